@@ -69,6 +69,23 @@ CLAIMS = {
              "leave a modified store unprotected. Does not decide the ordered-map semantics over operation histories.",
         note=TRUST + "Structural keyword table (SIMPLE, BITPIX, NAXIS*, EXTEND, END) is the trusted list of cards cfitsio writes itself.",
         technique="compile witness (driver unit), effect ordering on the CFG, sibling-loop agreement, abstract evaluation of the predicate, affine interval check"),
+    "C05": dict(
+        text="Decides the mechanisms that keep lookup and evaluation inside owned memory: knot vectors allocated as N+2*O doubles offset by O and "
+             "released with the same affine forms at all 6 allocation sites; margin-shift loops bounded first (left >= 0, left < nknots-1) and "
+             "entered only from the boundary centres in all 6 kernel instantiations; the SIMD lane cap dominating every lane store and core call "
+             "in all 4 gradient bodies with NVECS*VECTOR_SIZE >= cap and VC <= NVECS for every reachable vector core; positive extents of all "
+             "58 variable-length arrays; rejection of unordered (NaN) coordinates by lookup. Does not decide index ranges inside the recurrences "
+             "numerically, nor safety on tables that are not well-formed.",
+        note=TRUST + "Assumes well-formed tables (decided for loaded tables under C07) and centres produced by searchcenters.",
+        technique="affine-form agreement of allocation/release sites, guard-shape and dominance rules on instantiated kernels, abstract evaluation of the range test for unordered input"),
+    "C04": dict(
+        text="Decides the shape of centre lookup: acceptance test equal to first < x <= last (relational normal form, ordered semantics) as the first "
+             "statement of every iteration, exactly one failure and one success exit, clamp targets order[i] / naxes[i]-1 under the right "
+             "conditions, last-interval adjustment, search interval [order, nknots-2], and the zero-on-failure wiring of both call operators. "
+             "Does not decide termination of the binary search nor the bracket knot[c] <= x < knot[c+1] (loop invariants over runtime knots; "
+             "a solver's job, out of this family).",
+        note=TRUST,
+        technique="relational normal forms over the instantiated AST, exit/dominance structure"),
 }
 
 NOT_APPLICABLE = {
@@ -79,4 +96,4 @@ NOT_APPLICABLE = {
 
 # properties whose check is designed (DESIGN.md §4) but not yet built in this tree
 PENDING = {p: "static check designed in DESIGN.md §4 but not built yet in this tree; not claimed until it runs"
-           for p in ("C02", "C03", "C04", "C05", "C06", "C10", "C11", "C14", "C19")}
+           for p in ("C02", "C03", "C06", "C10", "C11", "C14", "C19")}
